@@ -49,7 +49,8 @@ def handle (args : List String) : Option Proto.Out :=
     let (a, b) := splitAt "|" rest
     let pa ← parsePayloads a
     let pb ← parsePayloads b
-    let bytes := (encodeAll crc32 pa).take k ++ encodeAll crc32 pb
+    -- reopening cuts the torn tail, then the new records are appended
+    let bytes := reopenBytes crc32 (fun _ => true) ((encodeAll crc32 pa).take k) ++ encodeAll crc32 pb
     let m := recoverBytes bytes
     -- specification: what survived the crash, then everything written afterwards
     let s := replay kindOf (pa.take (wholeFrames k pa) ++ pb)
